@@ -23,7 +23,7 @@ def special_cells(rng, r, impl_lookup):
 def run(run):
     rng = run.rng
     run.do_ties()
-    quick = run.tier == "quick"
+    quick = run.quick
     # metadata
     reqs = [f"get_num_cells {r}" for r in range(-2, 33)] + [f"cell_area {r}" for r in range(-2, 33)]
     impl, model = core.both(run, reqs, "metadata")
